@@ -12,7 +12,7 @@ PORTS = [None, "", "0", "DEFAULT", "80", "443", "21", "8080", "65535", "65536", 
 PATHS = ["", "/", "/a", "/a/", "/a//b", "a/b", "/a%2Fb/c%20d", "/é", "/a/../b", "/a/./b/%2E%2E/c", "/a.b/c.tar.gz",
          "//x", "/a b", "/%41", "/a:b@c", "a:b", "/a+b%2B", "/.", "/..", "/a/%2e", "/;p=1", "/%zz", "/%E2%82", "/a'(b)*!"]
 QUERIES = ["", "a=1", "a=1&a=2&b", "a=%2B+%26", "a=b=c&&d", "q=é", "a;b=1", "a=1+2%203", "?x", "a=/?:@", "=", "&", "%zz",
-           "k=%3D%3B"]
+           "k=%3D%3B", "a%20b=1&c=2", "a;b=1&a%3Bb=2", "%61=1&a=2", "k%c3%a9=1"]
 FRAGMENTS = ["", "f", "f%23", "é/?", "a b", "%41", "#"]
 DEFAULTS = {"http": "80", "https": "443", "ws": "80", "wss": "443", "ftp": "21"}
 
